@@ -824,7 +824,8 @@ Step(c, n0, d, m, rto) ==
   IN
   IF ignoredByLease THEN OK(n0)
   ELSE IF m.term # 0 /\ m.term < n0.term /\ ~Weak("stale_term_ignored") THEN
-    IF (c.checkQuorum \/ c.preVote) /\ m.type \in {"Heartbeat", "App"}
+    \* (regardless of the local CheckQuorum / PreVote setting: repair of finding F7)
+    IF m.type \in {"Heartbeat", "App"}
     THEN OK(Send(c, n0, Msg("AppResp", m.from)))
     ELSE IF m.type = "PreVote"
     THEN OK(Send(c, n0, [Msg("PreVoteResp", m.from) EXCEPT !.term = n0.term, !.reject = TRUE]))
